@@ -267,6 +267,38 @@ theorem reader_never_misreads_header (buf : Bytes) (hb : Inp buf) (hshort : buf.
       cases r <;> simp [hs] at h
   · simp at h
 
+theorem filesRel_flags {sfs : List Spec.SFile} {fes : List FileEntry} (h : FilesRel sfs fes) :
+    fes.map (·.emptystream) = sfs.map (·.emptyStream) := by
+  induction h with
+  | nil => rfl
+  | cons h1 _ ih => simp [ih, h1.1]
+
+/-- **Header parse and cursor together.** When py7zr's reader model has read a header the strict reader accepts
+    (`HeaderRel`, from `reader_never_misreads_header`) and the SubStreamsInfo carries explicit sizes, the cursor of
+    `_real_get_contents` run on what py7zr's reader returned — its stream counts, its sizes, its empty-stream flags —
+    gives every member the folder, offset and size the FORMAT assigns to it (`Spec.members`), digests as the format
+    assigns them. Parsing and assignment are thereby one statement about arbitrary accepted input. -/
+theorem reader_assigns_as_format (sh : Spec.SHeader) (H : Header) (hr : HeaderRel sh H) (ss : Spec.SStreams)
+    (hs : sh.streams = some ss) (hf : sh.hasFiles = true) (ms : List Spec.SMember) (hm : Spec.members sh = .ok ms) :
+    ∃ st fi, H.mainStreams = some st ∧ H.filesInfo = some fi ∧
+      ∀ x sizesI, st.substreams = some x → x.unpacksizes = some sizesI →
+        Impl.assign (fi.files.map (·.emptystream)) x.numUnpack sizesI ss.subCrcs = some (ms.map (·.stream)) := by
+  obtain ⟨h1, _, h3, _⟩ := hr
+  obtain ⟨st, hst, _, _, hsub, _⟩ := h1 ss hs
+  obtain ⟨fi, hfi, hrel⟩ := h3 hf
+  refine ⟨st, fi, hst, hfi, ?_⟩
+  intro x sizesI hx hsz
+  obtain ⟨hn, hz⟩ := hsub x hx
+  have hsizes : sizesI = ss.subSizes := by
+    rcases hz with h | h
+    · rw [hsz] at h; exact Option.some.inj h
+    · rw [hsz] at h; simp at h
+  unfold Spec.members at hm
+  simp only [hs] at hm
+  have := assign_refines_spec sh.files ss.numUnpack ss.subSizes ss.subCrcs ms hm
+  rw [filesRel_flags hrel, hn, hsizes]
+  exact this
+
 -- non-vacuity: a raw header with one stream-less member named "a" (Names, then EmptyStream) is accepted by the strict
 -- reader and read by py7zr's model
 example : (match Spec.readTop [0x01, 0x05, 0x01, 0x11, 0x05, 0x00, 0x61, 0x00, 0x00, 0x00, 0x0E, 0x01, 0x80, 0x00, 0x00] with
